@@ -58,6 +58,8 @@ type Session struct {
 	Chunked bool `json:"chunked,omitempty"`
 	// BigChunk: two chunks per 8 s segment
 	BigChunk bool `json:"big_chunk,omitempty"`
+	// LongUpload (with BigChunk): four chunks of 2 s per 8 s segment instead: one upload stays open for 6 s
+	LongUpload bool `json:"long_upload,omitempty"`
 }
 
 type Op struct {
@@ -82,7 +84,7 @@ func genCase(t *rapid.T) (Case, *env.Env) {
 			t.Fatalf("HARNESS: %v", err)
 		}
 		s := Session{Type: rapid.SampledFrom([]string{"number", "time"}).Draw(t, "type"), MPD: "Manifest.mpd", Chunked: true, BigChunk: true, Slow: true,
-			TestNowMS: 1_000_000 + int64(rapid.IntRange(0, 16000).Draw(t, "off"))}
+			TestNowMS: 1_000_000 + int64(rapid.IntRange(0, 16000).Draw(t, "off")), LongUpload: rapid.Bool().Draw(t, "long-upload")}
 		return Case{Target: tg, Sessions: []Session{s}, Ops: []Op{{Kind: "step", Session: 0}, {Kind: "step", Session: 0}}}, e
 	}
 	lowLatency := rapid.IntRange(0, 4).Draw(t, "low-latency-case") == 0
@@ -341,7 +343,7 @@ func checkCase(c Case, e *env.Env) (*hx.Violation, info) {
 		}
 		if s.Chunked {
 			ll := []string{"ato_" + refmodel.FormatMS(segMS*3/4), "chunkdur_" + refmodel.FormatMS(segMS/4)}
-			if s.BigChunk {
+			if s.BigChunk && !s.LongUpload {
 				ll = []string{"ato_" + refmodel.FormatMS(segMS/2), "chunkdur_" + refmodel.FormatMS(segMS/2)}
 			}
 			x.parts = append(x.parts, ll...)
@@ -630,7 +632,7 @@ func checkCase(c Case, e *env.Env) (*hx.Violation, info) {
 		}
 		if x.s.Fault == "statuscode" {
 			time.Sleep(40 * time.Millisecond)
-		} else if bound := map[bool]time.Duration{false: 3 * time.Second, true: 15 * time.Second}[x.s.BigChunk]; !x.early && !x.rc.waitFor(x.expected, bound) {
+		} else if bound := map[bool]time.Duration{false: 3 * time.Second, true: 25 * time.Second}[x.s.BigChunk]; !x.early && !x.rc.waitFor(x.expected, bound) {
 			return hx.V("segment-missing", "op %d (%s): session %s delivered %d of %d uploads", i, op.Kind, x.id, x.rc.count(), x.expected), inf
 		}
 		time.Sleep(2 * time.Millisecond) // let a surplus upload show up
